@@ -128,7 +128,11 @@ def _counterexample(d, unit, hd):
     best = None
     for check, vals in cands:
         args = [vals[v][1] for v, _ in hd["inputs"]]
-        r = subprocess.run([exe] + args, capture_output=True, text=True)
+        try:
+            r = subprocess.run([exe] + args, capture_output=True, text=True, timeout=20)
+        except subprocess.TimeoutExpired:
+            # a loop that Kani could not unwind within its bound and that does not come back on the real function either
+            r = subprocess.CompletedProcess([exe] + args, 1, "the extracted real function did not return within 20 s on this input (it hangs)", "")
         rec = dict(check=check, inputs={v: vals[v][0] for v, _ in hd["inputs"]}, input_bits={v: vals[v][1] for v, _ in hd["inputs"]},
                    replay_cmd="%s %s" % (exe, " ".join(args)), replay_exit=r.returncode, replay_output=(r.stdout + r.stderr).strip()[:600],
                    replayed=(r.returncode == 1), name="kani counterexample for %s" % hd.get("fn"))
@@ -163,7 +167,10 @@ def run_for_property(prop, tier="quick", repo=None):
             out["samples"].append(dict(unit=u, obligation=name, function=(r.get("header") or {}).get("fn"), clause=lines[ln - 1].strip()[:300], section="kani::ensures"))
         for it in r["items"]:
             if it["kind"] == "fn":
-                out["functions"].append(dict(unit=u, file=it["src"], line=it["src_line"], fn=it["name"], engine="kani (function contract, loop-free: complete)",
+                lp = (r.get("header") or {}).get("loops")
+                out["functions"].append(dict(unit=u, file=it["src"], line=it["src_line"], fn=it["name"],
+                                             engine=("kani (function contract; loop bounded by operand width, %s with unwinding assertions: complete)" % lp) if lp
+                                                    else "kani (function contract, loop-free: complete)",
                                              mode=it["mode"], spec=None, rules=it["rules"][:12]))
         out["failures"] += [f for f in r["failures"] if prop in f["props"]]
     return out
